@@ -6,14 +6,18 @@ import world
 PROPERTY = "C02"
 LEVEL = "exploration"
 RULE = (
-    "cases = (subject future from one of 24 producing entry points - every executor future class in each life stage and every "
-    "f_* combinator output -, 1-3 actor threads issuing cancel / add_done_callback (also from inside callbacks) / result / exception / "
-    "wait (all return_when modes) / as_completed / state samples, a completer thread ending the underlying work by value, exception "
-    "or cancellation, tape, clock mode). Enumerated: every (subject x {cancel, add_cb, result, wait, as_completed} x completion kind) two-thread "
-    "program with every single pre-emption placement; Hypothesis: longer histories with tapes. Oracle = invariants over the totally "
-    "ordered history: cancel() bool / never raises / True => stays cancelled / False on normally finished; terminal observations never "
-    "change; every callback exactly once and only when done; every waiter released (no TimeoutError) once the subject is terminal. "
-    "Non-trivial = a cancel/add_cb/waiter overlapping the completing call (by sequence numbers) or parked before it. Distinct = digest of the case."
+    "cases = (subject future from one of 30 producing entry points - every executor future class in each life stage, every f_* "
+    "combinator output, combinators decided early (one input settles the output while a sibling is pending), nested combinators "
+    "sharing an input, and futures born finished (f_return*) -, 1-3 actor threads issuing cancel / add_done_callback (also from "
+    "inside callbacks; callbacks that cancel, read or wait() on their own future; optionally done-callbacks on the subject's inputs "
+    "that cancel the subject, or on the subject that cancel its inputs) / result / exception / wait (all return_when modes) / "
+    "as_completed / state samples, a completer thread ending the underlying work by value, exception or cancellation, tape, clock "
+    "mode). Enumerated: every (subject x {cancel, add_cb, result, wait, as_completed} x completion kind) two-thread program with "
+    "every single pre-emption placement; Hypothesis: longer histories with tapes. Oracle = invariants over the totally ordered "
+    "history: cancel() bool / never raises / True => stays cancelled / False on normally finished; terminal observations never "
+    "change; every callback exactly once and only when done; every waiter released (no TimeoutError) once the subject is terminal, "
+    "and a wait() that starts after a done-callback ran reports it as done. Non-trivial = a cancel/add_cb/waiter overlapping the "
+    "completing call (by sequence numbers) or parked before it. Distinct = digest of the case."
 )
 ASSUMPTIONS = [
     "a callback registered on an already-done library future is invoked directly and its own exception reaches the registrant (documented by the suite's test_broken_callback); recorded, not flagged",
